@@ -254,13 +254,22 @@ static void grant(int t)
 // ---------------------------------------------------------------- the per-thread program
 extern "C" {
 int yield_fn(int (*cb)(int), int x);
+int yield_fn2(int (*cb)(int), int x); // a second name of the same library (result marked with +500)
 }
+// free-running (random) schedules run a longer program: each thread invokes BOTH names within
+// one incarnation of its sandbox, in an order that depends on the thread
+static bool g_extended = false;
 #if defined(BK_NOOP)
 // statically linked "guest": yields to the scheduler, then calls the callback it was given
 extern "C" int yield_fn(int (*cb)(int), int x)
 {
   sync({ "guest", "", "", g_me >= 0 ? tname(g_me) : "?", nullptr }); // (the executing sandbox is not observable here)
   return (g_me + 1) * 1000 + cb(x);
+}
+extern "C" int yield_fn2(int (*cb)(int), int x)
+{
+  sync({ "guest", "", "", g_me >= 0 ? tname(g_me) : "?", nullptr });
+  return (g_me + 1) * 1000 + 500 + cb(x);
 }
 static void make_libs(std::integer_sequence<int>) {}
 template<int... I>
@@ -277,11 +286,20 @@ static int32_t g_yield_fn(uint32_t cb_entry, int32_t x)
   Sbx::call_indirect<int32_t, int32_t>(cb_entry, &ret, x);
   return L * 1000 + ret;
 }
+template<int L>
+static int32_t g_yield_fn2(uint32_t cb_entry, int32_t x)
+{
+  Sbx* cur = Sbx::current_sandbox();
+  sync({ "guest", "", "", sb_of(cur), nullptr });
+  int32_t ret = 0;
+  Sbx::call_indirect<int32_t, int32_t>(cb_entry, &ret, x);
+  return L * 1000 + 500 + ret;
+}
 static vm_library g_libs[MAXT];
 template<int... I>
 static void make_libs(std::integer_sequence<int, I...>)
 {
-  ((g_libs[I] = vm_library{ I + 1, { { "yield_fn", (void*)&g_yield_fn<I + 1> } } }), ...);
+  ((g_libs[I] = vm_library{ I + 1, { { "yield_fn", (void*)&g_yield_fn<I + 1> }, { "yield_fn2", (void*)&g_yield_fn2<I + 1> } } }), ...);
 }
 #endif
 
@@ -303,7 +321,10 @@ static void worker_main(int t, int rounds)
   }
   RS& sb = *g_sb[t];
   for (int r = 0; r < rounds; r++) {
-    for (const char* op : { "create", "lookup", "invoke", "lookup", "destroy" }) {
+    static const std::vector<const char*> BASIC = { "create", "lookup", "invoke", "lookup", "destroy" };
+    static const std::vector<const char*> EXTENDED = { "create", "lookup", "invoke", "lookup", "invoke", "destroy" };
+    int ninvoke = 0;
+    for (const char* op : (g_extended ? EXTENDED : BASIC)) {
       std::string o = op;
       sync({ "begin", "", o, "", nullptr });
       std::string res = "ok";
@@ -358,10 +379,14 @@ static void worker_main(int t, int rounds)
 #endif
         } else {
           auto cb = sb.register_callback(app_cb);
-          int v = sb.invoke_sandbox_function(yield_fn, cb, 7).UNSAFE_unverified();
+          // which of the two names: threads start with different ones and swap for the second call
+          bool second = g_extended && ((t + ninvoke) % 2 == 1);
+          ninvoke++;
+          int v = second ? sb.invoke_sandbox_function(yield_fn2, cb, 7).UNSAFE_unverified()
+                         : sb.invoke_sandbox_function(yield_fn, cb, 7).UNSAFE_unverified();
           cb.unregister();
-          // the function of this thread's own library ran: it returns lib * 1000 + callback result
-          res = (v % 1000 == 7) ? tname(v / 1000 - 1) : "badret";
+          // the named function of this thread's own library ran: lib * 1000 (+ 500 for the second name) + callback result
+          res = (v % 1000 == (second ? 507 : 7)) ? tname(v / 1000 - 1) : "badret";
         }
       } catch (const std::runtime_error& ex) {
         res = std::string("abort");
@@ -420,6 +445,7 @@ int main(int argc, char** argv)
       sched.push_back(std::atoi(tok.c_str() + 1) - 1);
     }
     std::mt19937_64 rng(seed);
+    g_extended = sched.empty();
     g_n = n;
     g_writer = -1;
     g_readers.clear();
